@@ -36,14 +36,16 @@ Theorem C09_variant_agree : forall (f : filt) (l : list Z), has_async_variant f 
 Proof. exact variant_agree. Qed.
 Print Assumptions C09_variant_agree.
 
-(* chains of filters: parity fails ... *)
-Theorem C09_chain_parity_refuted :
-  exists c l, run_chain true KSeq l c <> run_chain false KSeq l c.
-Proof. exists [FMapAbs; FSort], [3; -1; 2]. vm_compute. discriminate. Qed.
-Print Assumptions C09_chain_parity_refuted.
+(* chains of filters agree in both modes, for every chain and every input list.  (Before /repo
+   f6c81fd, a69269b, fe6bb48, d4b3a53 the consumers sort / min / max / batch / reverse had no async
+   variant and this held only under the guard below; the witness [map abs; sort] on [3; -1; 2]
+   refuted the full statement - findings C09-F1..F5, now fixed.) *)
+Theorem C09_chain_parity : forall (c : list filt) (l : list Z),
+  run_chain true KSeq l c = run_chain false KSeq l c.
+Proof. exact chain_parity_full. Qed.
+Print Assumptions C09_chain_parity.
 
-(* ... exactly when a filter without an async variant consumes what a lazy producer (map, select,
-   reject, selectattr, rejectattr) returns: under that decidable guard every chain agrees *)
+(* the guarded form, kept: it does not depend on which filters have a variant *)
 Theorem C09_chain_parity_partial : forall (c : list filt) (l : list Z),
   chain_guard false c = true -> run_chain true KSeq l c = run_chain false KSeq l c.
 Proof. exact chain_parity_guarded. Qed.
@@ -59,6 +61,7 @@ Example C09_example :
   eval (wrap_fn fn) [VInt 10] s = None /\          (* the undecorated program cannot run on async data *)
   run_chain true KSeq [3; -1; 2; 3] [FMapAbs; FUnique; FList] = RItems [3; 1; 2] /\
   run_chain false KSeq [3; -1; 2] [FMapAbs; FSort] = RItems [1; 2; 3] /\
-  run_chain true KSeq [3; -1; 2] [FMapAbs; FSort] = RErr /\
-  chain_guard false [FMapAbs; FList; FSort] = true /\ chain_guard false [FMapAbs; FSort] = false.
+  run_chain true KSeq [3; -1; 2] [FMapAbs; FSort] = RItems [1; 2; 3] /\
+  run_chain true KSeq [3; -1; 2] [FMapAbs; FLength] = RErr /\ run_chain false KSeq [3; -1; 2] [FMapAbs; FLength] = RErr /\
+  chain_guard false [FMapAbs; FList; FSort] = true /\ chain_guard false [FMapAbs; FLength] = false.
 Proof. vm_compute. repeat split; reflexivity. Qed.
